@@ -11,8 +11,12 @@ def jobs(tier, names=None, parts=None):
     for n in (names or sorted(SIMS)):
         cls, hdr = SIMS[n]
         d = {"SIMCLASS": cls, "SIMHDR": '"%s"' % hdr}
+        if n == "avr8": d["SIM_AVR8"] = None
+        if n == "8008": d["SIM_8008"] = None
+        if n == "1802": d["SIM_1802"] = None
+        if n == "tms1000": d["SIM_TMS1000"] = None
         if n in ("6502", "65816", "8008", "1802", "stm8", "tms1000", "z80"): d["CONCRETIZE_READS"] = 2 if n in ("z80", "stm8") else 1
-        js.append(vp.Job("sim_step.%s" % n, "sim_step.cpp", d, max_paths=300000, timeout=300 if tier == "quick" else 1800, allow_partial=True, min_completed=1 if n == 'ebpf' else 5))
+        js.append(vp.Job("sim_step.%s" % n, "sim_step.cpp", d, max_paths=300000, timeout=300 if tier == "quick" else 1800, allow_partial=True, min_completed=1 if n in ('ebpf', 'tms9900') else 5))
     return js
 def main(tier):
     return vp.check_property("C15", tier, jobs(tier),
@@ -23,4 +27,4 @@ def main(tier):
         ["Memory::read8/write8 replaced by the lazy cell model (the simulated address space itself is C05/C19's subject); a symbolic address is case-split against the known cells",
          "for the table-driven 8-bit decoders (6502, 65816, 8008, 1802, stm8, tms1000, z80) the engine enumerates the opcode byte(s) (all solver-feasible values) instead of carrying 256-way selections",
          "partial_allowed: each job explores paths in DFS order until its time budget; unexplored paths are reported as pending, not as held",
-         "stdout of the simulators is not modelled (sink); serial I/O hooks (serial_in/out NULL) as constructed by init()"])
+         "representation invariants assumed for the havoced state: 8008 stack index <= 7; 1802 4-bit selectors P, X, N, I <= 15; tms1000 register widths (x<=3, y,a,pa,pb<=15, pc<=63); avr8 heap pointer/size fields keep their constructed values", "stdout of the simulators is not modelled (sink); serial I/O hooks (serial_in/out NULL) as constructed by init()"])
